@@ -397,6 +397,15 @@ def check_c13(exe, tier, seed, verdict):
     if r.violated:
         verdict.violation("C13:model", {"tlc": r.out[-3000:]}, "TLC: Parser error code/line differs from Meaning\n" + r.out[-1500:])
     n, nn, samples = replay_cases(exe, recs, ("g", "k", "v"), verdict, "C13", nt_c13, fp_parser("C13"), vias=("file", "dirs-main", "dirs-dropin"))
+    # the same under PYTHON_STYLE=1 (read through an option object): an indented line directly below an entry continues its
+    # value whatever it holds; everywhere else a malformed header is a malformed header
+    from . import p_options
+    rp, recsp, totalp = export("MC_Parser", {"MaxLines": maxl, "Export": "TRUE", "WithBad": "TRUE", "Opt": '"python"'},
+                               ["ParseIsMeaning"], sample=sample, seed=seed)
+    if rp.violated:
+        verdict.violation("C13:model:python", {"tlc": rp.out[-3000:]}, "TLC: Parser error code/line differs from Meaning under PYTHON_STYLE\n" + rp.out[-1500:])
+    n += p_options.replay_opt_files(exe, recsp, "PYTHON_STYLE=1", ("g", "k", "v"), verdict, "C13-python", pid="C13")
+    nn += sum(1 for x in recsp if nt_c13(x))
     from . import p_layers
     extra = p_layers.c13_tree_cases(exe, tier, seed, verdict)
     es = check_errstrings(exe, verdict)
@@ -407,7 +416,7 @@ def check_c13(exe, tier, seed, verdict):
     acc = validate_prefix_traces(exe, files, verdict, "C13")
     cov = {"states": r.distinct, "transitions": r.generated, "traces_validated_against_impl": n + acc + extra["n"],
            "evaluations": n + extra["n"] + es + sum(len(f["lines"]) for f in files), "distinct_nontrivial": nn + extra["nontrivial"],
-           "rule": "all conventional files of <= %d lines (pool of MC_Parser.tla) with exactly one malformed line (missing bracket, text after bracket, empty name, key text without delimiter where it cannot continue a value) at every position; compared: code by name, econf_errLocation file+line, NULL out-pointer. The same malformed files as main / k-th drop-in of layered reads (%d tree cases). econf_errString for codes 0..24 and out-of-range against distinguishing words. %d random files with an injected malformed line as prefix traces. non-trivial = malformed line not first / file not the first consulted." % (maxl, extra["n"], len(files)),
+           "rule": "all conventional files of <= %d lines (pool of MC_Parser.tla) with exactly one malformed line (missing bracket, text after bracket, empty name, key text without delimiter where it cannot continue a value) at every position, and the same pool under PYTHON_STYLE=1 read through an option object; compared: code by name, econf_errLocation file+line, NULL out-pointer. The same malformed files as main / k-th drop-in of layered reads (%d tree cases). econf_errString for codes 0..24 and out-of-range against distinguishing words. %d random files with an injected malformed line as prefix traces. non-trivial = malformed line not first / file not the first consulted." % (maxl, extra["n"], len(files)),
            "samples": samples + extra["samples"][:1], "exhaustive": sample == 1, "errstring_codes_checked": es,
            "trusted_base": ["TLC 1.8.0", "gcc ASan/UBSan", "drv.c"]}
     return cov, BASE_ASSUME, "model_checking"
